@@ -27,7 +27,7 @@ ASSUMPTIONS = [
     "no shared sub-elements and no inheritance in these trees (a parent's later reconfiguration is C15's subject)",
     "model = vlib.recipes recipe; the fresh element is built from it through the public constructors",
 ]
-BUDGET = {"quick": (90, 14), "thorough": (1100, 30)}
+BUDGET = {"quick": (180, 14), "thorough": (1400, 30)}
 
 observe.register_formats()
 NP = "<NotPassed>"
